@@ -553,16 +553,18 @@ def execute(scn, keep_objects=False, wall_limit=None):
 
     def on_alarm(signum, frame):
         raise ScenarioTimeout()
-    old = signal.signal(signal.SIGALRM, on_alarm)
-    signal.setitimer(signal.ITIMER_REAL, wall_limit)
+    # CPU time of this process, not wall time: a loaded machine must not
+    # turn into a verdict
+    old = signal.signal(signal.SIGVTALRM, on_alarm)
+    signal.setitimer(signal.ITIMER_VIRTUAL, wall_limit)
     try:
         return _execute(scn, keep_objects)
     except ScenarioTimeout:
         return {'timeout': True, 'build': [], 'ops': [], 'assembled': False,
                 'rule_calls': [], 'load_calls': []}
     finally:
-        signal.setitimer(signal.ITIMER_REAL, 0)
-        signal.signal(signal.SIGALRM, old)
+        signal.setitimer(signal.ITIMER_VIRTUAL, 0)
+        signal.signal(signal.SIGVTALRM, old)
 
 
 def _execute(scn, keep_objects=False):
